@@ -1,26 +1,254 @@
-import GV.Model.Augment
-import GV.Spec.Augment
+import GV.Proofs.Augment
+import GV.Proofs.AugmentOrig
+import GV.Proofs.AugmentOverlay
 
+/-
+  C12 — standard-library overlays merge exactly as the directives say.
+
+  Model: `GV.Augment` (GV/Model/Augment.lean), a transcription of build.go:170-597.
+  Specification: `GV.Spec.Augment` (doc/pargma.md + build.go:149-169 + the property statement).
+  All theorems quantify over ALL file lists (no bound); `fileNoNil` = "the file came out of the parser"
+  (no nil slots), which is the only hypothesis on the original files.
+-/
 namespace GV.Props.C12
-open GV.Augment
+open GV.Augment GV.Spec.Augment
 
-theorem get_erase_self {β : Type} (k : String) (m : List (String × β)) : GV.Augment.get k (erase k m) = none := by
-  unfold GV.Augment.get erase
-  induction m with
-  | nil => rfl
-  | cons p m ih =>
-    simp only [List.filter]
-    split
-    · rename_i h
-      simp only [List.find?]
-      have : (p.1 == k) = false := by simpa using h
-      simp only [this]
-      exact ih
-    · exact ih
+/-- what a result file declares: entries in order, blank names dropped, constant values erased -/
+def declared (f : File) : List Entry := ((entries f).filter notBlank).map noVal
+
+/-- what a result file declares, with the constant values -/
+def declaredV (f : File) : List Entry := (entries f).filter notBlank
+
+/-! ### `init` is never overridden -/
 
 /-- `delete(overrides, "init")` (build.go:182): whatever the overlays declare, `init` is not in the table -/
-theorem init_never_overridden (overlays : List File) : GV.Augment.get "init" (overridesOf overlays) = none := by
+theorem init_never_overridden (overlays : List File) :
+    GV.Augment.get "init" (overridesOf overlays) = none := by
   unfold overridesOf
   exact get_erase_self _ _
+
+/-- hence an original `func init()` is left alone (not removed, not renamed, no change flagged) -/
+theorem init_function_kept (overlays : List File) (fn : Func) (hn : fn.name = "init") (hr : fn.sig.recvKey = "") :
+    origDecl (overridesOf overlays) (some (.func fn)) = (some (.func fn), false) := by
+  have hk : funcKey fn = "init" := by simp [funcKey, hr, hn]
+  simp [origDecl, hk, init_never_overridden, hr]
+
+/-! ### names, provenance, order -/
+
+/-- The override table built by the code = the documented rules (last overlay declaration of a name wins,
+`init` excluded). -/
+theorem overrides_table (overlays : List File) : Agree (overridesOf overlays) (overlayRules overlays) :=
+  overrides_agree overlays
+
+/-- **merge_names**: for every import path and all overlay / original files, the declarations of the merged
+package (per file, in order, with the identity of the declaring node, the signature identity of functions and
+the initialiser identity of variables) are exactly: the overlay declarations that are not purged and not
+`override-signature` carriers, then for each original file its declarations whose name the overlay does not
+declare, `_gopherjs_original_f` for `keep-original` functions, the original body under the overlay's signature
+for `override-signature`, minus the methods of purged types that the overlay does not declare — nothing else. -/
+theorem merge_names (ip : String) (overlays originals : List File)
+    (ho : ∀ f ∈ originals, fileNoNil f = true) :
+    (merge ip overlays originals).1.map declared = (expected overlays originals).map (·.map noVal) := by
+  rw [merge_fst, collectOverlays_snd]
+  simp only [expected, List.map_append, List.map_map]
+  congr 1
+  · apply List.map_congr_left
+    intro f _
+    exact overlay_entries [] f
+  · apply List.map_congr_left
+    intro f hf
+    simp only [Function.comp, declared]
+    rw [original_entries _ _ (overrides_agree overlays) _
+      (by rw [fileNoNil_augmentOriginalImports]; exact ho f hf)]
+    rw [expectedOriginal_augmentOriginalImports]
+
+/-- **order_preserved**: the surviving declarations of an original file are a sublist, in the original order,
+of its declarations (identity of the declaring nodes). -/
+theorem order_preserved (ip : String) (overlays : List File) (f : File) (hf : fileNoNil f = true) :
+    ((declared (augmentOriginalFile (overridesOf overlays) (augmentOriginalImports ip f))).map (·.id)).Sublist
+      ((entries f).map (·.id)) := by
+  have h := original_entries _ _ (overrides_agree overlays) (augmentOriginalImports ip f)
+    (by rw [fileNoNil_augmentOriginalImports]; exact hf)
+  unfold declared
+  rw [h, expectedOriginal_augmentOriginalImports]
+  have hid : ((expectedOriginal (overlayRules overlays) f).map noVal).map (·.id)
+      = (expectedOriginal (overlayRules overlays) f).map (·.id) := by
+    simp [List.map_map, Function.comp, noVal]
+  rw [hid]
+  exact expectedOriginal_ids_sublist _ _
+
+/-- **values_untouched** (variables): a variable that survives in an original file is the same declaration
+with the same initialiser (same expression in the multi-value context, same result index of the same call in
+the single-call context). -/
+theorem values_untouched (ip : String) (overlays : List File) (f : File) (hf : fileNoNil f = true) :
+    ∀ e ∈ entries (augmentOriginalFile (overridesOf overlays) (augmentOriginalImports ip f)),
+      e.kind = Kind.var → e.name ≠ "_" → e ∈ entries f := by
+  intro e he hk hn
+  have h := original_entries _ _ (overrides_agree overlays) (augmentOriginalImports ip f)
+    (by rw [fileNoNil_augmentOriginalImports]; exact hf)
+  rw [expectedOriginal_augmentOriginalImports] at h
+  have hmem : noVal e ∈ ((entries (augmentOriginalFile (overridesOf overlays)
+      (augmentOriginalImports ip f))).filter notBlank).map noVal := by
+    apply List.mem_map_of_mem
+    simp [List.mem_filter, he, notBlank, hn]
+  rw [h] at hmem
+  obtain ⟨e', he', heq⟩ := List.mem_map.mp hmem
+  have hk' : e'.kind = Kind.var := by
+    have : (noVal e').kind = (noVal e).kind := by rw [heq]
+    simpa [noVal, hk] using this
+  have hin : e' ∈ entries f := expectedOriginal_nonfunc_mem _ _ e' he' (by simp [hk'])
+  have h1 : noVal e' = e' := var_entries_noVal f e' hin (by simp [hk'])
+  have h2 : noVal e = e := var_entries_noVal _ e he (by simp [hk])
+  have : e = e' := by rw [← h1, ← h2, heq]
+  rw [this]; exact hin
+
+/-! ### constants: the full statement is false today -/
+
+/-- Full-strength statement (NOT claimed): the merged package declares the expected entries *with the
+constant values the constants had in their original declaration*. -/
+def ConstValuesUntouched : Prop :=
+  ∀ (ip : String) (overlays originals : List File), (∀ f ∈ originals, fileNoNil f = true) →
+    (merge ip overlays originals).1.map declaredV = expected overlays originals
+
+def nm (id : Nat) (n : String) : Option Name := some ⟨id, n⟩
+def lit (id a b : Nat) : Option Val := some ⟨id, a, b, []⟩
+
+/-- original `const ( A = iota * 10; B; C; D )` -/
+def witnessOriginal : File :=
+  { doc := [], comments := [], decls := [some (.gen .const [] [] [
+      some (.value [nm 1 "A"] [lit 2 10 0] [] [] []),
+      some (.value [nm 3 "B"] [] [] [] []),
+      some (.value [nm 4 "C"] [] [] [] []),
+      some (.value [nm 5 "D"] [] [] [] [])])] }
+
+/-- overlay `const B = 1000` -/
+def witnessOverlay : File :=
+  { doc := [], comments := [], decls := [some (.gen .const [] [] [some (.value [nm 6 "B"] [lit 7 0 1000] [] [] [])])] }
+
+/-- the model reproduces the defect: after the merge `C = 10`, `D = 20` -/
+theorem witness_model_values :
+    ((merge "p" [witnessOverlay] [witnessOriginal]).1.flatMap declaredV).map (fun e => (e.name, e.cval))
+      = [("B", some 1000), ("A", some 0), ("C", some 10), ("D", some 20)] := by decide
+
+/-- the specification demands `C = 20`, `D = 30` -/
+theorem witness_spec_values :
+    ((expected [witnessOverlay] [witnessOriginal]).flatten).map (fun e => (e.name, e.cval))
+      = [("B", some 1000), ("A", some 0), ("C", some 20), ("D", some 30)] := by decide
+
+/-- **counterexample**: overriding one spec of an `iota` group shifts the later constants (build.go:403-429,
+543-580 delete the spec). -/
+theorem const_values_counterexample : ¬ ConstValuesUntouched := by
+  intro h
+  have := h "p" [witnessOverlay] [witnessOriginal] (by decide)
+  revert this
+  decide
+
+/-- original `const ( A = 5; B; C )`, overlay `const A = 1` -/
+def witnessFirstOriginal : File :=
+  { doc := [], comments := [], decls := [some (.gen .const [] [] [
+      some (.value [nm 1 "A"] [lit 2 0 5] [] [] []),
+      some (.value [nm 3 "B"] [] [] [] []),
+      some (.value [nm 4 "C"] [] [] [] [])])] }
+
+def witnessFirstOverlay : File :=
+  { doc := [], comments := [], decls := [some (.gen .const [] [] [some (.value [nm 6 "A"] [lit 7 0 1] [] [] [])])] }
+
+/-- second witness: when the spec carrying the expression list is overridden, the following
+implicit-repetition specs are left without an initialiser (`none` = go/types "missing init expr") -/
+theorem const_orphaned_counterexample :
+    ((merge "p" [witnessFirstOverlay] [witnessFirstOriginal]).1.flatMap declaredV).map (fun e => (e.name, e.cval))
+      = [("A", some 1), ("B", none), ("C", none)]
+    ∧ ((expected [witnessFirstOverlay] [witnessFirstOriginal]).flatten).map (fun e => (e.name, e.cval))
+      = [("A", some 1), ("B", some 5), ("C", some 5)] := by decide
+
+/-- every const group of the file carries its own, `iota`-free expressions (no implicit repetition) -/
+def ConstGroupsSelfContained (f : File) : Prop :=
+  ∀ dirs doc specs, some (Decl.gen Tok.const dirs doc specs) ∈ f.decls → ∀ s ∈ specs.filterMap id, s.iotaFree
+
+/-- **values_untouched_const_partial**: for original files whose const groups have no `iota` and no implicit
+repetition, the merged file declares exactly the expected entries WITH their constant values. -/
+theorem values_untouched_const_partial (ip : String) (overlays : List File) (f : File)
+    (hf : fileNoNil f = true) (hc : ConstGroupsSelfContained (augmentOriginalImports ip f)) :
+    declaredV (augmentOriginalFile (overridesOf overlays) (augmentOriginalImports ip f))
+      = expectedOriginal (overlayRules overlays) f := by
+  unfold declaredV
+  rw [original_entries_exact _ _ (overrides_agree overlays) _
+    (by rw [fileNoNil_augmentOriginalImports]; exact hf) hc]
+  exact expectedOriginal_augmentOriginalImports _ _ _
+
+/-- the hypothesis is satisfiable by a non-trivial file: `const ( X = 1; Y = 2 )` with `Y` overridden -/
+example : ∃ f : File, fileNoNil f = true ∧ ConstGroupsSelfContained f ∧
+    (entries (augmentOriginalFile [("Y", {})] f)).map (·.name) = ["X"] := by
+  refine ⟨{ doc := [], comments := [], decls := [some (.gen .const [] [] [
+      some (.value [nm 1 "X"] [lit 2 0 1] [] [] []),
+      some (.value [nm 3 "Y"] [lit 4 0 2] [] [] [])])] }, by decide, ?_, by decide⟩
+  intro dirs doc specs hmem s hs
+  simp only [List.mem_cons, List.mem_nil_iff, or_false] at hmem
+  injection hmem with hmem
+  injection hmem with _ _ _ hspecs
+  subst hspecs
+  simp only [List.filterMap, id, List.mem_cons, List.mem_nil_iff, or_false] at hs
+  rcases hs with rfl | rfl <;> simp [Spec.iotaFree, nm, lit]
+
+/-- **values_untouched_const_partial**, group-level and sharper: in ONE const group `pre ++ post`, if no name
+of the prefix `pre` is overridden and every spec of the suffix `post` (from the first touched spec on) carries
+its own `iota`-free expressions, the surviving constants keep exactly their values — `iota` and implicit
+repetition inside the untouched prefix are fine. -/
+theorem values_untouched_const_group (ov : Overrides) (dirs : List String) (doc : List Cm)
+    (pre post : List (Option Spec))
+    (hd : declNoNil (some (.gen Tok.const dirs doc (pre ++ post))) = true)
+    (hpre : ∀ s ∈ pre, ∀ names values d t c, s = some (Spec.value names values d t c) →
+      ∀ n ∈ names.filterMap id, has n.n ov = false)
+    (hi : ∀ s ∈ post.filterMap id, s.iotaFree) :
+    (optDeclEntries (origDecl ov (some (.gen Tok.const dirs doc (pre ++ post)))).1).filter notBlank
+      = (Decl.entries (.gen Tok.const dirs doc (pre ++ post))).filter (fun e => !(has e.name ov) && notBlank e) :=
+  origDecl_const_prefix ov dirs doc pre post hd hpre hi
+
+/-! ### imports -/
+
+/-- what `pruneImports` must do with one import of a file -/
+def importRule (f : File) (i : ImportSpec) : Option ImportSpec :=
+  if importName i = "" ∨ importName i ∈ fileSels f then some i
+  else if isDirectiveImport f i then some { i with name := some "_" } else none
+
+/-- **imports_pruned**: a file left with only imports and no `//go:linkname` directive is emptied; otherwise an
+import survives iff it is blank or dot (or unnameable), or its name heads a remaining selector, or it is
+`unsafe` / `embed` with a matching `//go:linkname ` / `//go:embed ` directive in the file (then renamed `_`).
+Hypotheses: import names of the file are pairwise distinct (Go requires it) and import specs are distinct
+nodes. The package name of an import is guessed as in build.go:463-469 (`importName`). -/
+theorem imports_pruned (f : File)
+    (hNames : (((importsOf f).map importName).filter (· ≠ "")).Nodup)
+    (hIds : ((importsOf f).map (·.id)).Nodup) :
+    importsOf (pruneImports f) =
+      if (isOnlyImports f && !hasLinkname f) = true then [] else (importsOf f).filterMap (importRule f) := by
+  split
+  · rename_i h; exact importsOf_pruneImports_only f h
+  · rename_i h
+    have h' : (isOnlyImports f && !hasLinkname f) = false := by simpa using h
+    exact importsOf_pruneImports f hNames hIds h'
+
+/-- pruning imports never touches a declaration -/
+theorem imports_pruned_keeps_declarations (f : File) : entries (pruneImports f) = entries f :=
+  entries_pruneImports f
+
+/-- `sync` → `nosync` exactly for the listed packages, keeping the name `sync` -/
+theorem nosync_substitution (ip : String) (f : File) :
+    importsOf (augmentOriginalImports ip f) =
+      if nosyncPackages.contains ip then
+        (importsOf f).map fun i =>
+          if i.path == "sync" then { i with name := some (i.name.getD "sync"), path := nosyncPath } else i
+      else importsOf f := by
+  unfold augmentOriginalImports
+  split
+  · rw [importsOf_mapImports]
+    induction importsOf f with
+    | nil => rfl
+    | cons i l ih =>
+      by_cases hp : (i.path == "sync") = true
+      · simp only [List.filterMap_cons, List.map_cons, hp, if_true]
+        exact congrArg _ ih
+      · simp only [List.filterMap_cons, List.map_cons, hp]
+        exact congrArg _ ih
+  · rfl
 
 end GV.Props.C12
